@@ -62,19 +62,23 @@ CHECKS["C20"] = dict(
 CHECKS["C01"] = dict(
     category="translation_validation",
     text=("Triangle is not modelled. Every mesh the real fmesher produces for generated problems (all three file types; nested "
-          "polygons, circles/arcs, holes, multiply connected regions; mesh sizes, min angles 1-33, smart mesh on/off) is "
-          "evaluated by a validator written in Coq with exact integer arithmetic (indices, CCW, each directed edge once, "
-          "every drawn point an exact vertex, every drawn entity a chain of mesh edges, every boundary edge on a drawn "
-          "entity, region attributes constant across non-entity edges, labels located, holes empty, edge markers). Proved in "
-          "Coq for all meshes: the discrete Green identity (sum of element areas = shoelace of the boundary for edge-manifold "
-          "meshes), soundness of the edge-table manifold check and what an accepted report establishes. Corrupted copies of a "
-          "mesh must be rejected on every run (negative controls)."),
+          "polygons, circles/arcs, holes, multiply connected regions, cells with (anti)periodic pairs of arcs / lines; mesh "
+          "sizes, min angles 1-33, smart mesh on/off) is evaluated by a validator written in Coq with exact integer arithmetic. "
+          "Proved in Coq for ALL meshes and PSLGs: an accepted report establishes indices in range, every element "
+          "counter-clockwise, every directed edge used once (edge-manifold), the discrete Green identity (sum of element areas = "
+          "shoelace sum of the boundary), every boundary edge on a drawn entity, every drawn entity a chain of element edges "
+          "from its first to its last point with all nodes on the entity, region attributes constant across every element edge "
+          "that is not on a drawn entity, every region point inside an element of its attribute, no hole point inside an "
+          "element, every drawn point an exact vertex with its marker, .edge markers equal to the drawn entity's (10 theorems, "
+          "MeshCheckProofs.v + MeshCheckSound.v). A python oracle checks that every drawn arc is its equal-chord polygon in the "
+          "PSLG. Corrupted copies of a mesh must be rejected on every run (negative controls)."),
     design_ref="DESIGN.md §5 C01",
     note=("Trusted: Coq kernel (vm_compute evaluates the validator), exact dyadic scaling in tools/meshlib.py, .poly written by "
-          "fmesher --write-poly as the PSLG given to Triangle (its relation to the drawing is C18's Discretize model). The "
-          "chain/attribute/label checks are executed but their soundness lemmas are not all proved; the final Jordan-curve "
-          "step from these facts to 'covers exactly the domain' is argued in prose."),
-    technique="verified result checker (Coq, exact arithmetic) run on every produced mesh + Coq proof of its core soundness")
+          "fmesher --write-poly as the PSLG given to Triangle (its relation to the drawing is C18's Discretize model, C07's Pbc "
+          "model for periodic pairs, and the arc oracle). The final Jordan-curve step from the proved facts to 'the elements "
+          "cover exactly the drawn domain' is argued in prose (DESIGN.md), not formalised; collinearity of Steiner points is "
+          "accepted to 2^-40 of the segment length."),
+    technique="verified result checker (Coq, exact arithmetic, soundness of every accepted-report clause proved) run on every produced mesh")
 CHECKS["C12"] = dict(
     category="proof",
     text=("Coq theorems over a model of the three post-processors' point location and interpolation: the spiral search "
@@ -227,6 +231,24 @@ CHECKS["C16"] = dict(
     design_ref="DESIGN.md §5 C16",
     note="Trusted: Coq kernel (+Reals axioms / primitive floats where RA/FA are used); hand-written model tied by harness/h_drawing.cpp op-sequence correspondence; python Fraction oracle.",
     technique="Coq proof (invariant by induction over all edit sequences, generic in the geometric predicates) + op-sequence correspondence + sanitizer replay")
+CHECKS["C07"] = dict(
+    category="proof",
+    text=("18 Coq theorems over an executable model of FMesher::DoPeriodicBCTriangulation (read-back of the first Triangle pass, "
+          "spacing of boundary entities, validity checks, min-rule reconciliation, interleaved subdivision of partner segments / "
+          "arcs, point list, sortXY + pruning, the .pbc text): for every k >= 2 and all coordinates the created nodes of partner "
+          "B are the images of partner A's under the affine / rigid map taking A's ends to B's (rotation image for arcs, nodes "
+          "stay on their circles), the pruned point list has no duplicates and contains every node of A exactly once with its "
+          "partner and the condition's sign, invalid assignments (more than two entities, mixed, dissimilar) are rejected, and a "
+          "tie forces equal / opposite values (C09's tie_system_equiv). Which BdryFormat values the readers call (anti)periodic "
+          "and which ones the mesher selects is regenerated from the sources (gen/PbcSel.v) and decided in Coq. Tie: the model's "
+          "binary64 reading reproduces the final PSLG (every point bit for bit, every segment) and the .pbc file of the real "
+          "fmesher on generated cells (first-pass Triangle output taken from a real run of a twin problem); independent geometric "
+          "oracle on the pairs; solver potentials of listed pairs equal / opposite; sanitizer runs."),
+    design_ref="DESIGN.md §5 C07, §9.6",
+    note=("Trusted: Coq kernel + real-number axioms; hand-written model tied by PSLG/.pbc correspondence; regex translator in "
+          "tools/props/c07.py; Triangle (orientation of boundary edges, no Steiner points under -Y) validated per mesh, not "
+          "proved; air-gap-element branch not modelled."),
+    technique="Coq proof over an executable model of the periodic pairing + bit-exact PSLG/.pbc correspondence + geometric oracle + solver-output check")
 PENDING = {}
 def main():
     props = [json.loads(l) for l in open(os.path.join(V, "properties.jsonl"))]
